@@ -563,7 +563,7 @@ func runC35(c *mon.Ctx) {
 		"distinct non-trivial = distinct (builder fresh/reused, via styling, shrink, final call, nesting depth, text-class mask, trimmed?, #entities) among programs that asked for ≥1 entity")
 	c.Assume("harness u16len (byte-level count, cross-checked against unicode/utf16 on every generated text) is the UTF-16 reference")
 	c.Assume("whitespace = Unicode White_Space property; splitting a rune across two writes is outside the statement and never generated")
-	n := c.N(200000, 6000000)
+	n := c.N(200000, 20000000)
 	// self-check of the reference counter against unicode/utf16 on the pools
 	for _, pool := range [][]string{poolASCII, poolBMP, poolAstral, poolComb, poolWS, poolNearWS} {
 		for _, s := range pool {
